@@ -141,6 +141,7 @@ package modbus
 //@   safety[C08,C14,C19]
 //@   lockdiscipline[C14]
 //@   guarded[C14] conn, address, hooks
+//@   shared[C14] conn, address
 //@   modifies[C08] nothing
 //@   modifies streamPos, reads, lastN, lastErr, lastBuf, hookReads, writes, bwCount, bwBuf, ctxErr, faults, flushes, bpCount, bpBuf, parseCount, lastDoRes, timerNs, timers
 //@   ensures[C08.timer] timers <= old(timers) + 1 && (timers > old(timers) ==> timerNs == int(c.readTimeout))
@@ -161,6 +162,7 @@ package modbus
 //@   safety[C14]
 //@   lockdiscipline[C14]
 //@   guarded[C14] conn, address
+//@   shared[C14] conn, address
 //@   ensures[C14] muState == 0
 
 //@ func (c *Client) Close() (err error)
@@ -169,6 +171,7 @@ package modbus
 //@   safety[C14,C08]
 //@   lockdiscipline[C14]
 //@   guarded[C14] conn, address
+//@   shared[C14] conn, address
 //@   ensures[C14] muState == 0
 
 //@ iface modbus.Client.dialContextFunc(ctx context.Context, address string) (conn net.Conn, err error)
@@ -456,7 +459,7 @@ package modbus
 //@ func (g *builderSlotGroup) AddField(f Field)
 //@   requires g != nil && groupInv(g) && fieldOfGroup(g, f) && fieldOK(f)
 //@   safety[C05,C06]
-//@   modifies hdr(g.slots), g.slots
+//@   modifies g.slots, hdr(g.slots)
 //@   ensures[C05,C06] groupInv(g)
 //@   ensures[C05,C06] g.serverAddress == old(g.serverAddress) && g.unitID == old(g.unitID) && g.isForCoils == old(g.isForCoils)
 //@   ensures[C05,C06] !old(hasSlot(g, f.Address)) ==> len(g.slots) == old(len(g.slots)) + 1 && g.slots[len(g.slots)-1].address == f.Address && int(g.slots[len(g.slots)-1].size) == fieldRegs(f) && len(g.slots[len(g.slots)-1].fields) == 1 && g.slots[len(g.slots)-1].fields[0] == f
